@@ -25,6 +25,7 @@ import (
 	"strings"
 	"sync"
 
+	"github.com/bwmarrin/snowflake"
 	"github.com/xujiajun/nutsdb/ds/list"
 	"github.com/xujiajun/nutsdb/ds/set"
 	"github.com/xujiajun/nutsdb/ds/zset"
@@ -141,6 +142,7 @@ type (
 		KeyCount                int // total key number ,include expired, deleted, repeated.
 		closed                  bool
 		isMerging               bool
+		txIDNode                *snowflake.Node // transaction id generator of this database
 	}
 
 	// BPTreeIdx represents the B+ tree index
@@ -179,6 +181,8 @@ func Open(opt Options) (*DB, error) {
 		bucketMetas:             make(map[string]*BucketMeta),
 		ActiveCommittedTxIdsIdx: NewTree(),
 	}
+
+	db.txIDNode, _ = snowflake.NewNode(opt.NodeNum)
 
 	if ok := filesystem.PathIsExist(db.opt.Dir); !ok {
 		if err := os.MkdirAll(db.opt.Dir, os.ModePerm); err != nil {
